@@ -28,7 +28,7 @@ MODELS = {
     },
     "Incr": {
         "module": "mc/MC_Incr.tla", "spec": "MCSpec", "view": "MCView",
-        "constants": {"quick": {"MaxOps": 3, "Tier": '"quick"'}, "thorough": {"MaxOps": 3, "Tier": '"thorough"'}},
+        "constants": {"quick": {"MaxOps": 3, "Tier": '"quick"', "Wide": "FALSE"}, "thorough": {"MaxOps": 3, "Tier": '"thorough"', "Wide": "FALSE"}},
         "always": ["Inv_C05"], "properties": ["Prop_C05", "P_C10"],
     },
     "Build": {
@@ -60,7 +60,7 @@ PLAN = {
     "C08": [("Query", ["Inv_C08", "Inv_C08pair"], {}), ("Incr", ["Inv_C08"], {"MaxOps": 2})],
     "C04": [("Build", ["Inv_C04", "Inv_C04load"], {})],
     "C13": [("Build", ["Inv_C13"], {})],
-    "C05": [("Incr", [], {})],
+    "C05": [("Incr", [], {}), ("Incr", [], {"MaxOps": 1, "Wide": "TRUE"})],
     "C09": [("Derive", ["Inv_C09"], {"Ops": '{"chain", "sub"}'}),
             ("Derive", ["Inv_C09"], {"Ops": '{"chain", "sub"}', "MaxBase": 1, "BaseMode": '"all"'})],
     "C12": [("Derive", ["Inv_C12"], {"Ops": '{"remap_uri", "rewire"}', "MaxBase": 1, "BaseMode": '"all"'})],
@@ -138,26 +138,40 @@ def stratified(hs, rng, limit):
     """Pick behaviours so that every coverage signature of the specification (the sequence of branch
     signatures TLC recorded in `sigs`, or the outcome when a model has none) is represented:
     round-robin over the signature classes, rarest classes first."""
-    classes = {}
+    classes, single = {}, {}
     for h, last, sigs in hs:
         key = _freeze(sigs) if sigs is not None else _freeze((last, tuple(op.get("k") for op in h)))
         classes.setdefault(key, []).append(h)
+        if sigs:
+            single.setdefault(_freeze(sigs[-1]), []).append(h)       # the signature of the LAST operation alone
+    out, seen = [], set()
+    # 1. one behaviour for every distinct single-operation signature (which branches the operation under test took)
+    for k in sorted(single, key=lambda k: (len(single[k]), repr(k))):
+        rng.shuffle(single[k])
+        h = single[k][0]
+        if id(h) not in seen and len(out) < limit:
+            seen.add(id(h))
+            out.append(h)
+    # 2. then round-robin over the classes of whole signature sequences, rarest first
     order = sorted(classes, key=lambda k: (len(classes[k]), repr(k)))
     for k in order:
         rng.shuffle(classes[k])
-    out, rnd = [], 0
+    rnd = 0
     while len(out) < limit:
         progressed = False
         for k in order:
             if rnd < len(classes[k]):
-                out.append(classes[k][rnd])
                 progressed = True
-                if len(out) >= limit:
-                    break
+                h = classes[k][rnd]
+                if id(h) not in seen:
+                    seen.add(id(h))
+                    out.append(h)
+                    if len(out) >= limit:
+                        break
         if not progressed:
             break
         rnd += 1
-    return out, len(classes), sum(1 for k in order if classes[k])
+    return out, len(classes), len(single)
 
 
 def _freeze(v):
